@@ -73,6 +73,7 @@ func init() {
 			&vexplore.Scenario{Name: "survey-device-chain-1", Mode: "sched", Bound: b, Reset: kit.ResetGlobals, Body: surveyChain},
 			&vexplore.Scenario{Name: "survey-device-chain-2-two-surveyors", Mode: "sched", Bound: b, Reset: kit.ResetGlobals, Body: surveyChain2},
 			&vexplore.Scenario{Name: "pair1-device-chain-1", Mode: "sched", Bound: b, Reset: kit.ResetGlobals, Body: pair1Chain},
+			&vexplore.Scenario{Name: "pair1-device-chain-ttl-is-each-receivers-own", Mode: "enum", Reset: kit.ResetGlobals, Body: pair1ChainTTL, NeedCounters: []string{"pair1-delivered-through-devices-with-a-lower-ttl", "pair1-dropped-by-a-device"}},
 			&vexplore.Scenario{Name: "star-device-forwarder-ttl-is-the-receivers", Mode: "enum", Reset: kit.ResetGlobals, Body: starDeviceTTL, NeedCounters: []string{"star-forwarded-by-device"}},
 			&vexplore.Scenario{Name: "reqrep-device-ttl-exact", Mode: "enum", Reset: kit.ResetGlobals, Body: deviceTTL},
 		)
@@ -511,6 +512,72 @@ func pair1Chain() {
 	}
 	kit.Must("Close", func() {
 		for _, s := range append(d, a, b) {
+			_ = s.Close()
+		}
+	})
+}
+
+// pair1ChainTTL: two cooked PAIR1 sockets joined by n = 1..4 devices whose raw sockets have a hop
+// limit of their own (1, 2, 3 or the default), the end points another (2, default).  A message is
+// dropped only by a socket that RECEIVES it with more forwarders behind it than that socket's own
+// limit permits (PAIR1 counts forwarders: the k-th device receives it with k-1 behind it, the far
+// end with n) - a sender's limit plays no part.  So it arrives iff n-1 <= device limit and n <= the
+// receiving end's limit, in both directions; what does arrive is unchanged.
+func pair1ChainTTL() {
+	n := 1 + kit.ChooseFree(4)
+	td := []int{1, 2, 3, 8}[kit.ChooseFree(4)]
+	te := []int{2, 8}[kit.ChooseFree(2)]
+	a, err := pair1.NewSocket()
+	must(err, "NewSocket")
+	b, err := pair1.NewSocket()
+	must(err, "NewSocket")
+	must(a.SetOption(mangos.OptionTTL, te), "TTL")
+	must(b.SetOption(mangos.OptionTTL, te), "TTL")
+	all := []mangos.Socket{a, b}
+	must(b.Listen("inproc://c09-pt-0"), "Listen")
+	for i := 0; i < n; i++ {
+		f, err := xpair1.NewSocket()
+		must(err, "NewSocket")
+		g, err := xpair1.NewSocket()
+		must(err, "NewSocket")
+		must(f.SetOption(mangos.OptionTTL, td), "TTL")
+		must(g.SetOption(mangos.OptionTTL, td), "TTL")
+		must(f.Listen(fmt.Sprintf("inproc://c09-pt-%d", i+1)), "Listen")
+		must(g.Dial(fmt.Sprintf("inproc://c09-pt-%d", i)), "Dial")
+		must(mangos.Device(f, g), "Device")
+		all = append(all, f, g)
+	}
+	must(a.Dial(fmt.Sprintf("inproc://c09-pt-%d", n)), "Dial")
+	kit.Quiesce()
+	want := n-1 <= td && n <= te
+	for dir, pr := range [][2]mangos.Socket{{a, b}, {b, a}} {
+		body := fmt.Sprintf("through-%d-devices-dir%d", n, dir)
+		sc := kit.Start("Send", func() (interface{}, error) { return nil, kit.SendBytes(pr[0], []byte(body)) })
+		kit.Quiesce()
+		if !sc.Done() || sc.Err != nil {
+			kit.Failf("send-stuck", "pair1 chain: Send done=%v %s", sc.Done(), kit.ErrName(sc.Err))
+		}
+		rc := kit.Start("Recv", func() (interface{}, error) { x, err := kit.Recv(pr[1]); return string(x), err })
+		kit.Quiesce()
+		switch {
+		case want && (!rc.Done() || rc.Err != nil || rc.Val.(string) != body):
+			kit.Failf("pair1-chain-dropped", "PAIR1 through %d device(s) with hop limit %d, end points %d (direction %d): no receiver saw more forwarders than its own limit, yet the message did not arrive (Recv done=%v %s %q)", n, td, te, dir, rc.Done(), kit.ErrName(rc.Err), rc.Val)
+		case !want && rc.Done() && rc.Err == nil:
+			kit.Failf("pair1-chain-delivered-beyond-limit", "PAIR1 through %d device(s) with hop limit %d, end points %d: delivered %q although a receiver's limit was exceeded", n, td, te, rc.Val)
+		}
+		if !rc.Done() {
+			// leave no Recv pending on the socket for the other direction: a sentinel cannot cross either; close at the end
+		}
+	}
+	if want && td < 8 && n > 1 {
+		kit.Count("pair1-delivered-through-devices-with-a-lower-ttl")
+	}
+	if !want {
+		kit.Count("pair1-dropped-by-a-device")
+	}
+	kit.Observe("n=%d td=%d te=%d %v", n, td, te, want)
+	kit.Must("Close", func() {
+		for _, s := range all {
 			_ = s.Close()
 		}
 	})
